@@ -1218,7 +1218,17 @@ def lemma_down_relay(ctx, v, d, variant, want_variants, lemma="REL-bcast", what=
                     probs.append("send not guarded by the member cell being Some")
                 else:
                     base, sel = strip_cell(ld[1])
-                    if not (sel and sel[0] == "idx" and sel[1][0] == "iterelem" and base_key(ld[1]) in tb):
+                    whole = False
+                    if sel and sel[0] == "idx" and base_key(ld[1]) in tb:
+                        ix = sel[1]
+                        if ix[0] == "iterelem":
+                            whole = True       # `for cell in cells.iter()`
+                        elif ix[0] == "someof" and ix[1][0] == "call" and ix[1][2] == "std::iter::Iterator::next":
+                            src = ix[1][3][0]  # `for k in 0..cells.len()` / `0..n`
+                            if src[0] == "agg" and src[2].startswith("Range::") and src[3][0][0] == "const" and src[3][0][3] == 0:
+                                hi = src[3][1]
+                                whole = _is_member_count(v, hi) or (hi[0] == "call" and hi[2].endswith("::len") and hi[3] and base_key(hi[3][0]) == base_key(ld[1]))
+                    if not whole:
                         probs.append("receiver is not an element of an iteration over the whole member vector")
         if n == 0:
             probs.append("no relay")
@@ -1694,7 +1704,9 @@ def _share_len_guard(v, b, e):
             if x.site != e.site:
                 continue
             rcu = [j for j, y in ev_effects(p) if y.kind == "cell" and y.op == "rcu" and j < i]
-            g = [(j, a) for j, a, _ in guards_before(p, i) if a[0] == "cmp" and a[3] == "==" and a[4] == 1 and a[1] is not None and a[1][0] == "call" and a[1][2].endswith("::len")]
+            # len == 1, or len < 2 (the sink was pushed just before, so len >= 1)
+            g = [(j, a) for j, a, _ in guards_before(p, i) if a[0] == "cmp" and ((a[3] == "==" and a[4] == 1) or (a[3] == "<" and a[4] == 2)) and a[2] is None
+                 and a[1] is not None and a[1][0] == "call" and a[1][2].endswith("::len")]
             if not g or not rcu or not (rcu[0] < g[0][0]):
                 return False
     return True
@@ -1799,6 +1811,30 @@ def closure_returns(v, cid):
         gs = [a for (_, a, _) in guards_before(p, len(p.events))]
         out.append((gs, rets[-1] if rets else None))
     return out
+
+
+def claim_closure_ok(v, eff):
+    """The closure of a fetch_update is `t < max => Some(t + 1), else None` with max a factory parameter."""
+    if not eff.closure:
+        return False
+    rets = closure_returns(v, eff.closure)
+    okc = len(rets) == 2
+    for gs, r in rets:
+        cm = [g for g in gs if g[0] == "cmp"]
+        if len(cm) != 1:
+            return False
+        g = cm[0]
+        if not (g[1] is not None and g[1][0] == "param" and g[1][1] == eff.closure and is_factory_param(v, g[2])):
+            return False
+        if g[3] == "<" and g[4] == 0:
+            if not (r is not None and r[0] == "agg" and r[2] == "Option::Some" and lin(r[3][0]) == (g[1], 1)):
+                return False
+        elif g[3] == ">=" and g[4] == 0:
+            if not (r is not None and r[0] == "agg" and r[2] == "Option::None"):
+                return False
+        else:
+            return False
+    return okc
 
 
 def lemma_take_admission(ctx, v, h):
@@ -1922,18 +1958,25 @@ def transfer_lemmas(ctx, v):
             a0 = strip_clone(u.args[0]) if u.args else None
             if not (len(u.args) == 2 and a0 is not None and a0[0] == "cellload" and cell_key(a0[1]) == cell_key(st.cell) and u.args[1] == incoming_payload(h, "Data")):
                 probs.append("reducer not called as reducer(acc.clone(), datum)")
-            if not (st.value[0] == "call" and st.value[1] == u.site and ui < si):
+            sv = strip_clone(st.value)
+            if not (sv[0] == "call" and sv[1] == u.site and ui < si):
                 probs.append("accumulator not updated with the reducer's result")
             s0 = sig[0]
             pl = strip_clone(s0[3].payload)
-            if not (s0[0] == "SINK" and s0[1] == "Data" and pl[0] == "cellload" and cell_key(pl[1]) == cell_key(st.cell)):
+            if not (s0[0] == "SINK" and s0[1] == "Data"):
                 probs.append("the sink is not sent the accumulator")
-            else:
+            elif pl[0] == "call" and pl[1] == u.site:
+                # the freshly computed value itself (or its clone): same value as the accumulator just stored
+                if not si < s0[4]:
+                    probs.append("the value is emitted before the accumulator is updated")
+            elif pl[0] == "cellload" and cell_key(pl[1]) == cell_key(st.cell):
                 li = [i for i, e in loads if e.site == pl[2]]
                 if not li or not (si < li[0] < s0[4]):
                     probs.append("the emitted accumulator is not read after the update")
-                if [1 for i, e in effs if e.kind == "send" and si < i < s0[4]]:
-                    probs.append("a send lies between the update and the emission")
+            else:
+                probs.append("the sink is not sent the accumulator")
+            if [1 for i, e in effs if e.kind == "send" and si < i < s0[4]]:
+                probs.append("a send lies between the update and the emission")
         ctx.ob("ORD-update-emit", v.key(h, "Data", "ORD-update-emit", "scan-transfer"), not probs and paths,
                "UP.D: acc := reducer(acc.clone(), d); then emits acc.clone(), nothing in between" if not probs else "; ".join(sorted(set(probs))), v.loc(h))
     elif fam == "take":
@@ -1968,6 +2011,36 @@ def transfer_lemmas(ctx, v):
         for p in paths:
             sig = [(s[0], s[1], s[2]) for s in send_sig(v, h, "Data", p)]
             dec = [a for (_, a, _) in guards_before(p, len(p.events)) if a[0] == "cmp" and counter_term(a[1]) and is_factory_param(v, a[2])]
+            claim = None
+            for (_, a, _) in guards_before(p, len(p.events)):
+                rm0 = None
+                if a[0] == "discr" and a[1][0] == "rmw" and a[1][2] == "fetch_update":
+                    rm0, admitted = a[1], (a[2] == 0)
+                elif a[0] == "bool" and a[1][0] == "call" and a[1][2].endswith("::is_ok") and a[1][3] and a[1][3][0][0] == "rmw" and a[1][3][0][2] == "fetch_update":
+                    rm0, admitted = a[1][3][0], a[2]
+                elif a[0] == "bool" and a[1][0] == "call" and a[1][2].endswith("::is_err") and a[1][3] and a[1][3][0][0] == "rmw" and a[1][3][0][2] == "fetch_update":
+                    rm0, admitted = a[1][3][0], not a[2]
+                if rm0 is not None:
+                    claim = (rm0, admitted)
+            if not dec and claim is not None:
+                # the count-and-compare is one atomic claim: Ok = counted as skipped, Err = bound reached
+                rm0, counted = claim
+                ck = cell_key(rm0[1])
+                eff = [e for _, e in ev_effects(p) if e.kind == "atomic" and e.site == rm0[4]]
+                if not eff or not claim_closure_ok(v, eff[0]):
+                    probs.append("the update closure is not `s < max => Some(s+1), else None`")
+                others = [e for i, e in ev_effects(p) if e.kind == "atomic" and e.op != "load" and cell_key(e.cell) == ck and e.site != rm0[4]]
+                if others:
+                    probs.append("skip counter updated twice")
+                if counted:
+                    kinds.add("skip")
+                    if sig != [("UPTB", "Pull", "none")]:
+                        probs.append("below the bound: sends %s" % sig)
+                else:
+                    kinds.add("pass")
+                    if sig != [("SINK", "Data", "in")]:
+                        probs.append("at/over the bound: sends %s" % sig)
+                continue
             if len(dec) != 1:
                 probs.append("no single comparison of the skip counter with max")
                 continue
@@ -2898,7 +2971,7 @@ def share_lemmas(ctx, v):
         if not okc:
             probs.append("the rcu closure is not `copy the list; push this sink; copy`")
         lens = [(i, a) for i, a, _ in guards_before(p, len(p.events)) if a[0] == "cmp" and a[1] is not None and a[1][0] == "call" and a[1][2].endswith("::len")]
-        if not lens or lens[0][0] < rc[0][0] or not (lens[0][1][3] in ("==", "!=") and lens[0][1][4] == 1):
+        if not lens or lens[0][0] < rc[0][0] or not ((lens[0][1][3] in ("==", "!=") and lens[0][1][4] == 1) or (lens[0][1][3] in ("<", ">=") and lens[0][1][4] == 2)):
             probs.append("subscription not decided by len == 1 evaluated after the push")
     ctx.ob("GRD-len", v.key(r, "Handshake", "GRD-len", "subscribe-on-0-to-1"), not probs and list_k is not None,
            "the sink is pushed first; upstream is subscribed iff the list then has exactly one element" if not probs else "; ".join(sorted(set(probs))), v.loc(r))
